@@ -1,13 +1,19 @@
 import Drv
 open Drv
 
-/-- one line in, one line out; the second token selects the scalar type (`Q` = exact rationals,
-`F` = IEEE doubles) for the numeric operations -/
+/-- all operations known to the driver (one list per `Drv/Cxx.lean`) -/
+def allOps : List (String × (List String → String)) :=
+  opsC17
+
+/-- one line in, one line out: `<op> <mode> <args…>`; the mode token selects the scalar type
+(`Q` = exact rationals, `F` = IEEE doubles) for numeric operations -/
 def dispatch (line : String) : String :=
   match (line.trimAscii.toString.splitOn " ").filter (· ≠ "") with
-  | "inv" :: "Q" :: args => opInv Rat args
-  | "inv" :: "F" :: args => opInv Float args
-  | _ => "bad-op"
+  | op :: args =>
+    match allOps.lookup op with
+    | some h => h args
+    | none => "bad-op"
+  | [] => "bad-op"
 
 partial def loop (h : IO.FS.Stream) (out : IO.FS.Stream) : IO Unit := do
   let line ← h.getLine
